@@ -15,9 +15,10 @@ inductive PyVal where
   | none
   | str (s : List Char)
   | tuple (xs : List (List Char))
+  | list (xs : List (List Char))
   deriving Repr, DecidableEq, Inhabited
 
-/-- the elements of a non-empty tuple after the first: `, 'b', 'c'` -/
+/-- the elements after the first: `, 'b', 'c'` -/
 def reprTail (isP : Char → Bool) : List (List Char) → List Char
   | [] => []
   | x :: r => ',' :: ' ' :: (pyRepr isP x ++ reprTail isP r)
@@ -28,31 +29,48 @@ def reprVal (isP : Char → Bool) : PyVal → List Char
   | .tuple [] => "()".toList
   | .tuple [x] => '(' :: (pyRepr isP x ++ ",)".toList)
   | .tuple (x :: r) => '(' :: (pyRepr isP x ++ reprTail isP r ++ [')'])
+  | .list [] => "[]".toList
+  | .list (x :: r) => '[' :: (pyRepr isP x ++ reprTail isP r ++ [']'])
 
-/-- after an element: `)` ends, `,)` ends (trailing comma), `, ` continues.  `fuel` bounds the
-    number of elements (the text length suffices). -/
-def parseTail : Nat → List Char → Option (List (List Char) × List Char)
+/-- after an element of a sequence closed by `cl`: `cl` ends, `,cl` ends (trailing comma),
+    `, ` continues.  `fuel` bounds the number of elements (the text length suffices). -/
+def parseTail (cl : Char) : Nat → List Char → Option (List (List Char) × List Char)
   | 0, _ => none
-  | _ + 1, ')' :: rest => some ([], rest)
-  | _ + 1, ',' :: ')' :: rest => some ([], rest)
-  | fuel + 1, ',' :: ' ' :: t =>
-    match parseStrLit t with
-    | some (s, t') =>
-      match parseTail fuel t' with
-      | some (xs, rest) => some (s :: xs, rest)
-      | none => none
-    | none => none
-  | _ + 1, _ => none
+  | _ + 1, [] => none
+  | fuel + 1, c :: rest =>
+    if c = cl then some ([], rest)
+    else if c = ',' then
+      match rest with
+      | [] => none
+      | c2 :: rest2 =>
+        if c2 = cl then some ([], rest2)
+        else if c2 = ' ' then
+          match parseStrLit rest2 with
+          | some (s, t') =>
+            match parseTail cl fuel t' with
+            | some (xs, r) => some (s :: xs, r)
+            | none => none
+          | none => none
+        else none
+    else none
 
 def parseValPrefix (t : List Char) : Option (PyVal × List Char) :=
   match t with
   | 'N' :: 'o' :: 'n' :: 'e' :: rest => some (.none, rest)
   | '(' :: ')' :: rest => some (.tuple [], rest)
+  | '[' :: ']' :: rest => some (.list [], rest)
   | '(' :: t' =>
     match parseStrLit t' with
     | some (s, t'') =>
-      match parseTail (t''.length + 1) t'' with
+      match parseTail ')' (t''.length + 1) t'' with
       | some (xs, rest) => some (.tuple (s :: xs), rest)
+      | none => none
+    | none => none
+  | '[' :: t' =>
+    match parseStrLit t' with
+    | some (s, t'') =>
+      match parseTail ']' (t''.length + 1) t'' with
+      | some (xs, rest) => some (.list (s :: xs), rest)
       | none => none
     | none => none
   | _ =>
@@ -71,12 +89,19 @@ def toTuple : PyVal → List (List Char)
   | .none => []
   | .str s => [s]
   | .tuple xs => xs
+  | .list xs => xs
 
-/-- `tuple_rev_as_scalar` -/
+/-- `tuple_rev_as_scalar` of a tuple (`down_revision`) -/
 def asScalar : List (List Char) → PyVal
   | [] => .none
   | [x] => .str x
   | xs => .tuple xs
+
+/-- `tuple_rev_as_scalar` of a list (`depends_on`: `resolved_depends_on` is a list) -/
+def asScalarList : List (List Char) → PyVal
+  | [] => .none
+  | [x] => .str x
+  | xs => .list xs
 
 /-- `util.to_tuple(branch_labels)` as the template receives it -/
 def labelsVal : List (List Char) → PyVal
